@@ -217,7 +217,7 @@ Print Assumptions catalog_centroid_shift.
 
 (* SourceCatalog.background_centroid (bilinear interpolation of the background at the centroid,
    whose four neighbours lie inside the frame): unchanged by the embedding -- for the REPAIRED
-   coordinate order (fixes/C03-1-background-centroid-xy-order.patch) *)
+   coordinate order (fixes/C03-1-background-centroid-axis-order.patch) *)
 Theorem background_at_centroid_shift : forall dy dx NY NX ny nx a y x fy fx s,
   rect ny nx a -> (S y < ny)%nat -> (S x < nx)%nat ->
   bilinear (embed 0 dy dx NY NX a) (dy + y) (dx + x) fy fx s = bilinear a y x fy fx s.
